@@ -134,11 +134,16 @@ def gen_pair(rng):
     pre = rng.choice(["", f"    A[{', '.join(['0'] * (2 if two_d else 1))}] = 1.0\n"])
     wrap = rng.random() < 0.4
     lines = ["@proc", f"def root({', '.join(rsig)}):", pre.rstrip("\n")] if pre else ["@proc", f"def root({', '.join(rsig)}):"]
+    post = rng.choice(["", "", f"B[{', '.join(['0'] * (2 if two_d else 1))}] = 3.0"])
     if wrap:
         lines.append("    for t in seq(0, 2):")
         lines.append(f"        f({', '.join(args)})")
+        if post:
+            lines.append("        " + post)
     else:
         lines.append(f"    f({', '.join(args)})")
+        if post:
+            lines.append("    " + post)
     text.append("\n".join(l for l in lines if l) + "\n")
     return "".join(text), {"two_d": two_d, "strict": strict_kind, "near_miss": nm_kind, "wrap": wrap}
 
@@ -393,7 +398,10 @@ def one(ctx, rng, ninputs):
     for variant, callee in (("same", "f"), ("strict", "f_strict"), ("other", "g_other")):
         sess.procs = sess.procs[: len(base_steps) + 1]
         sess.steps = list(base_steps)
-        st = {"op": "replace", "args": [D_block(cp, 1), {"k": "proc", "name": callee}, {"k": "lit", "v": True}], "kw": {}}
+        # the block handed to replace may be longer than the callee's body: the statements after the
+        # matched ones are not part of the instance and must survive
+        nblk = 2 if (tgt + 1 < len(blk) and rng.random() < 0.35) else 1
+        st = {"op": "replace", "args": [D_block(cp, nblk), {"k": "proc", "name": callee}, {"k": "lit", "v": True}], "kw": {}}
         r = apply_step(sess, st)
         ctx.stat("replace.attempted." + variant)
         if r.status != "accepted":
